@@ -1,2 +1,85 @@
+//! C31: render each TLC-generated fileset expression (spec/MC_Fileset) to
+//! text, parse it with the real `fileset::parse` from the given cwd, build
+//! the matcher and record which universe paths it matches.
+use std::path::PathBuf;
+
+use jj_lib::fileset;
+use jj_lib::fileset::FilesetAliasesMap;
+use jj_lib::fileset::FilesetDiagnostics;
+use jj_lib::fileset::FilesetParseContext;
+use jj_lib::repo_path::RepoPathUiConverter;
 use jjconf::util::Opts;
-pub fn run(_opts: &Opts) -> Result<(), String> { Err("todo".into()) }
+use jjconf::util::Out;
+use jjconf::util::catch;
+use jjconf::util::read_ndjson;
+use serde_json::Value;
+use serde_json::json;
+
+use crate::matchers::comps_of;
+use crate::matchers::observe;
+use crate::matchers::universe;
+
+/// Concrete syntax of an expression.  Pattern texts only contain the spec's
+/// tokens (letters, ".", "*", "?") joined by "/", so quoting needs no escapes.
+pub fn render(e: &Value) -> Result<String, String> {
+    let k = e["k"].as_str().ok_or("no k")?;
+    Ok(match k {
+        "all" => "all()".to_string(),
+        "none" => "none()".to_string(),
+        "pat" => {
+            let text = comps_of(&e["toks"]).join("/");
+            if text.contains(['"', '\\']) {
+                return Err(format!("unexpected character in pattern {text}"));
+            }
+            match e["kind"].as_str().ok_or("no kind")? {
+                "bare" => format!("\"{text}\""),
+                kind => format!("{kind}:\"{text}\""),
+            }
+        }
+        "not" => format!("~({})", render(&e["a"])?),
+        "and" => format!("({}) & ({})", render(&e["a"])?, render(&e["b"])?),
+        "diff" => format!("({}) ~ ({})", render(&e["a"])?, render(&e["b"])?),
+        "or" => format!("({}) | ({})", render(&e["a"])?, render(&e["b"])?),
+        k => return Err(format!("unknown expression kind {k}")),
+    })
+}
+
+pub fn run(opts: &Opts) -> Result<(), String> {
+    jjconf::util::quiet_panics();
+    let cases = read_ndjson(&opts.str("cases", "cases.ndjson"))?;
+    let mut out = Out::create(&opts.str("out", "trace.ndjson"))?;
+    let comps: Vec<String> = opts.str("comps", "a,ab,A").split(',').map(|s| s.to_string()).collect();
+    let (paths, dirs) = universe(&comps, opts.usize("maxdepth", 3));
+    let aliases_map = FilesetAliasesMap::new();
+    for c in &cases {
+        let text = render(&c["e"])?;
+        let cwd_c = comps_of(&c["cwd"]);
+        let path_converter = RepoPathUiConverter::Fs {
+            cwd: PathBuf::from(format!("/w/{}", cwd_c.join("/"))),
+            base: PathBuf::from("/w"),
+        };
+        let r = {
+            let ctx = FilesetParseContext {
+                aliases_map: &aliases_map,
+                path_converter: &path_converter,
+            };
+            let (text, paths, dirs) = (text.clone(), &paths, &dirs);
+            let ctx = std::panic::AssertUnwindSafe(ctx);
+            catch(move || match fileset::parse(&mut FilesetDiagnostics::new(), &text, &ctx) {
+                Ok(expr) => {
+                    let matcher = expr.to_matcher();
+                    let (matched, visits) = observe(matcher.as_ref(), paths, dirs)?;
+                    Ok::<_, String>(json!({"ok": true, "matched": matched, "visits": visits}))
+                }
+                Err(err) => Ok(json!({"ok": false, "matched": [], "visits": [], "err": err.kind().to_string()})),
+            })
+        };
+        match r {
+            Ok(Ok(v)) => out.emit(&json!({"op":"fileset","e":c["e"],"cwd":cwd_c,"text":text,"out":v})),
+            Ok(Err(e)) => return Err(e),
+            Err(msg) => out.emit(&json!({"op":"panic","e":c["e"],"cwd":cwd_c,"text":text,"msg":msg})),
+        }
+    }
+    out.finish();
+    Ok(())
+}
